@@ -2,12 +2,17 @@
     Depends on Model/ only, so it builds (and the correspondence check runs) even when a
     proof obligation of some property is broken. *)
 From Coq Require Import List ZArith NArith Bool.
-From CqlProxy Require Import Lib.Val Lib.Util Model.Config Model.LB Model.Codec Model.Retry Model.Frame Model.Override Model.Gate Model.Streams Model.Classify Model.Handled Model.SysTables Model.OneReply Model.Sessions Model.Prepared Model.Events Model.Topology Model.Hostile Model.Astra Model.Core Model.CoreDrive Model.Ast Model.AstGen.
+From CqlProxy Require Import Lib.Val Lib.Util Model.Config Model.LB Model.Codec Model.Retry Model.Frame Model.Override Model.Gate Model.Streams Model.Classify Model.Handled Model.SysTables Model.OneReply Model.Sessions Model.Prepared Model.Events Model.Topology Model.Hostile Model.Astra Model.Core Model.CoreDrive Model.Ast Model.AstGen Model.Front.
 Import ListNotations.
 Local Open Scope N_scope.
 
+Definition is_front_case (prop : bytes) (input : val) : bool :=
+  (bytes_eqb prop (str "C03") || bytes_eqb prop (str "C09") || bytes_eqb prop (str "C12") || bytes_eqb prop (str "C04"))
+  && (match input with L (I 4%Z :: _ :: _ :: _ :: _ :: []) => true | _ => false end).
+
 Definition run_prop (prop : bytes) (input : val) : val :=
-  if bytes_eqb prop (str "C20") then run_c20 input
+  if is_front_case prop input then run_front input
+  else if bytes_eqb prop (str "C20") then run_c20 input
   else if bytes_eqb prop (str "C15") then run_c15 input
   else if bytes_eqb prop (str "C11") then run_c11 input
   else if bytes_eqb prop (str "C05") then run_c05_both input
@@ -31,7 +36,8 @@ Definition run_prop (prop : bytes) (input : val) : val :=
   else L [B (str "unknown-property")].
 
 Definition holds_prop (prop : bytes) (input output : val) : val :=
-  if bytes_eqb prop (str "C20") then holds_c20 input output
+  if is_front_case prop input then holds_front input output
+  else if bytes_eqb prop (str "C20") then holds_c20 input output
   else if bytes_eqb prop (str "C15") then holds_c15 input output
   else if bytes_eqb prop (str "C11") then holds_c11 input output
   else if bytes_eqb prop (str "C05") then holds_c05 input output
